@@ -271,8 +271,8 @@ def gen_program(rng, size=3):
             # (every later right-hand side mentions an internal name, which keeps the program outside the class of the
             # open finding K01e: right-hand sides without internal names are hoisted in front of the statements)
             c.features.add("internal-define-sequence")
-            h, v, z, w = c.fresh("h"), c.fresh("cnt"), c.fresh("z"), c.fresh("w")
-            hp = c.fresh("q")
+            h, v, z, w = cc.fresh("h"), cc.fresh("cnt"), cc.fresh("z"), cc.fresh("iw")
+            hp = cc.fresh("q")
             init = rng.randint(-3, 9)
             k1, k2 = rng.randint(1, 5), rng.randint(1, 5)
             stmt = rng.choice(["(%s %d)" % (h, k1), "(set! %s (+ %s %d))" % (v, v, k1),
